@@ -59,6 +59,16 @@ LEVEL_TEXT = ("Theorems (Coq, over the reals, every dimension n >= 1): for a non
               "(C15_exchange_symmetric_eigenvector), and e_k is an eigenvector of no matrix in which coordinate k is coupled, whatever stands at m_kk (C15_coupled_coordinate_not_eigenvector); "
               "the generator produces such small-integer / dyadic matrices with m_kk equal to that eigenvalue (exactly, at 1 .. 1000 ulp, at 1e-16 .. 1e-6) for Eigensystem, Eigenvectors, Eigenvalues, sessions, "
               "and asks Find_Eigenvector_Rayleigh for exactly that value; S4 checks M v = lambda v on the pair Find_Eigenvector_Rayleigh returns whenever the value asked for is an eigenvalue (rayleigh:residual, rayleigh:eigenvalue). "
+              "The shift of the inverse iteration (C15_Proofs_Gap.v, induction over the spectrum as a list): for every spectrum of the quantifier in the order of decreasing magnitude "
+              "(any length <= 7, neighbouring ratios in 0.1 .. 0.8, either sign: 'graded') and |M|^2 = sum lambda^2 (Frobenius norm of a symmetric matrix: carried as a premise for general M; a theorem for every diagonal matrix, C15_norm_of_diagonal, which gives C15_rayleigh_shift_selects_on_diagonal with hypotheses on the spectrum only) "
+              "any two eigenvalues differ by at least 2e-6 of the largest magnitude and |M| <= |lambda_max| / 0.6, so the model's shift lambda_i + 1e-8 |M| is no eigenvalue and at least 100 times nearer to lambda_i "
+              "than to any other eigenvalue (C15_rayleigh_shift_selects_requested_eigenvalue), i.e. the inverse scales every other eigenvector by at most 1/100 of the factor of the requested one "
+              "(C15_rayleigh_amplification_ratio, with C15_inverse_scales_eigenvectors); in general an offset c |M| keeps the shift K times nearer whenever c (K + 1) <= 1.2e-6 (C15_shift_offset_selects), "
+              "and a bound of that size is needed: for the spectrum 1, 1e-1, .., 1e-5, 8e-6 of the quantifier an offset of 1.5e-6 |M| puts the shift for 8e-6 nearer to 1e-5 (C15_shift_offset_bound_is_needed). "
+              "These are statements about the shift only: that the loop then converges to the requested eigenvector remains untested by proof and is covered by S4. "
+              "The generator aims at that corner of the ratio box ('corner' cases: every ratio at or near an end 0.1 / 0.8, graded spectra with a close pair at the small end, at the large end, anywhere; same and opposite sign; "
+              "sizes 1..7 with 6 and 7 most often; all eigenvector classes; Eigensystem, Eigenvectors, Eigenvalues, sessions and Find_Eigenvector_Rayleigh asked for both members of the closest pair), and S4 evaluates "
+              "'the returned pairs cover every eigenvalue' both on the values (eigensystem:spectrum) and on the vectors (eigensystem:orthogonal: |v_i . v_j| <= 2 * residual slack / smallest gap for distinct eigenvalues). "
               "Where the library leaves the property at the ends of the double range, on matrices whose leading coordinate subspaces miss a dominant eigenvector, or when the start vector is an eigenvector, "
               "the failing clause carries the input region in its signature (known_findings.d/C15.json: K-C15-1..5).")
 LEVEL_NOTE = ("Coq 8.16.1 kernel, theorems over R (axioms of the real numbers as printed by Print Assumptions); hand-written model tied by differential correspondence "
@@ -620,6 +630,40 @@ def _gen_structured_sym(rng, n):
     return m, lam, ["structured"] + tags
 
 
+# ---- corners of the ratio box: every neighbouring ratio at (or within a few per cent of) an end of the range 0.1 .. 0.8.  The smallest gap between
+#      two eigenvalues RELATIVE TO |M| that the quantifier admits sits there: a spectrum graded by 0.1 over n - 2 steps with one ratio of 0.8 at the small
+#      end has gap / |M| = 0.2 * 0.1^(n-2) (2e-6 for n = 7), against 0.2 for a random spectrum - the region where the shift offset of the inverse
+#      iteration, the stopping tolerance of the QR sweeps and the conditioning of the explicit inverse meet the separation of the spectrum
+def _gen_corner_spectrum(rng, n):
+    """(lam, tag, (i, j)): lam in the order of decreasing magnitude; (i, j) = indices of the closest pair relative to the largest magnitude"""
+    if n == 1: return [10 ** rng.uniform(-2, 2) * rng.choice([1.0, -1.0])], "corner-1x1", (0, 0)
+    exact = rng.random() < 0.5
+    g = (lambda: 0.1) if exact else (lambda: rng.uniform(0.1, 0.125))
+    s = (lambda: 0.8) if exact else (lambda: rng.uniform(0.68, 0.8))
+    kind = rng.random()
+    if kind < 0.45:
+        k = 1 if rng.random() < 0.7 or n < 3 else 2
+        r = [g() for _ in range(n - 1 - k)] + [s() for _ in range(k)]; tag = "graded-close-tail"
+    elif kind < 0.6:
+        k = 1 if rng.random() < 0.7 or n < 3 else 2
+        r = [s() for _ in range(k)] + [g() for _ in range(n - 1 - k)]; tag = "close-head-graded"
+    elif kind < 0.75:
+        j = rng.randrange(n - 1); r = [g() for _ in range(n - 1)]; r[j] = s(); tag = "graded-one-close"
+    else:
+        r = [s() if rng.random() < 0.5 else g() for _ in range(n - 1)]; tag = "ends-mixed"
+    mg = _mags(r)
+    j = min(range(1, n), key=lambda k_: mg[k_ - 1] - mg[k_])           # the closest pair of magnitudes
+    sk = rng.random()
+    if sk < 0.35: sg = [1.0] * n
+    elif sk < 0.5: sg = [-1.0] * n
+    else:
+        sg = [rng.choice([1.0, -1.0]) for _ in range(n)]
+        if sk < 0.85: sg[j] = sg[j - 1]                                    # the close pair on the same side of zero (otherwise it is not close at all)
+    tag += "-same-sign" if sg[j] == sg[j - 1] else "-opposite-sign"
+    sc = 10 ** rng.uniform(-2, 2) if rng.random() < 0.6 else float(rng.choice([1, 2, 3, 5, 12]))
+    return [sc * a * b for a, b in zip(sg, mg)], tag + ("-exact-ends" if exact else ""), (j - 1, j)
+
+
 # ---- the iteration cap of Eigenvalues(): matrices tuned to need a prescribed number of sweeps
 def _gen_cap(rng, n, target):
     """(matrix, spectrum, tag) or None: a symmetric matrix inside the quantifier (ratios 0.1 .. 0.8, either sign) on which the unshifted QR
@@ -995,6 +1039,27 @@ def generate(rng, tier):
         if k % 2 == 0 or any(t.startswith("spectrum-") for t in tags): cs.append(Case(_mline("eigenvalues", m), ["eigenvalues"] + tags, tol=(1e-9, ta), info={"lam": lam}))
         if rng.random() < 0.15: cs.append(Case(_mline("eigenvectors", m), ["eigenvectors"] + tags, tol=(1e-7, ta), info={"lam": lam}))
         if rng.random() < 0.06: cs.append(Case(_mline("history", m), ["history"] + tags, tol=(1e-7, ta), info={"lam": lam}))
+    # ---- corners of the ratio box (all ratios at the ends 0.1 / 0.8; the smallest relative gaps the quantifier admits, down to 2e-6 |M| at n = 7): every size,
+    #      the largest sizes most often; Eigensystem on all of them, Find_Eigenvector_Rayleigh asked for each member of the closest pair
+    for k in range(1500 if big else 84):
+        n = rng.choice([7, 7, 7, 6, 6, 5, 5, 4, 3, 2]) if k >= 7 else k + 1
+        lam0, ctag, (ci, cj) = _gen_corner_spectrum(rng, n)
+        pair = (lam0[ci], lam0[cj])
+        if k % 4 == 3 and n >= 2:
+            q, t2 = _gen_structured_vectors(rng, n); lam = list(lam0); m = _sym_from(q, lam); tag = "vectors-" + t2
+        else: m, lam, tag = _gen_sym(rng, n, lam0)
+        tags = ["corner", "spectrum-" + ctag, tag, f"n={n}"]
+        if k % 6 == 5:
+            e, st = _pick_scale(rng, tame=True); m, e = _scale_finite(m, e); lam = [_ldexp(x, e) for x in lam]; pair = tuple(_ldexp(x, e) for x in pair); tags.append(st)
+        ta = 0.0 if tags[-1].startswith("scale") else 1e-300
+        cs.append(Case(_mline("eigensystem", m), ["eigensystem"] + tags, tol=(1e-7, ta), info={"lam": lam}))
+        if k % 2 == 0: cs.append(Case(_mline("eigenvalues", m), ["eigenvalues"] + tags, tol=(1e-9, ta), info={"lam": lam}))
+        if k % 5 == 0: cs.append(Case(_mline("eigenvectors", m), ["eigenvectors"] + tags, tol=(1e-7, ta), info={"lam": lam}))
+        if k % 3 == 0 and ta:
+            for ev in pair: cs.append(Case(_mline("rayleigh", m, " " + hx(ev)), ["rayleigh", "at-eigenvalue"] + tags, tol=(1e-7, 1e-300), info={"lam": lam}))
+        if k % 11 == 0 and ta and n <= 5:
+            steps = _gen_session(rng, m)
+            cs.append(Case(_session_line(m, steps), ["session"] + tags + sorted({"step-" + st[0] for st in steps if st[0] not in _CALLS}), tol=(1e-7, ta), info={"lam": lam}))
     # ---- the iteration cap: matrices that pass the convergence test of Eigenvalues() for the first time after sweep 200, 199, .. (the last
     #      sweeps the loop allows) and, in the thorough tier, anywhere between sweep 150 and 200
     caps = [200] * 8 + [199, 199, 198, 197, 196, 193, 185, 170] if not big else [200] * 60 + [199] * 20 + [198] * 10 + [197] * 10 + list(range(150, 197))
@@ -1207,6 +1272,14 @@ def _pred_eigenpairs(m, ev, vs, ref, e, reg, what):
     got = sorted(evs) if evs is not None else sorted(math.fsum(v[i] * math.fsum(ms[i][j] * v[j] for j in range(n)) for i in range(n)) for v in vs)
     bad = max(abs(a - b) for a, b in zip(got, ref))
     if not bad <= max(sl_ev, sl_res): out.append(("eigensystem:spectrum" + reg, f"{what}: eigenvalues of the returned pairs / 2^{e} {got!r} differ from the Jacobi reference {ref!r} by {bad!r}"))
+    # the same clause on the vectors: eigenvectors of a symmetric matrix for DISTINCT eigenvalues are orthogonal.  For unit vectors with residuals r_i, r_j:
+    # (lambda_i - lambda_j) v_i . v_j = v_i . r_j - r_i . v_j, so |v_i . v_j| <= (|r_i| + |r_j|) / gap <= 2 sl_res / gap with gap = the smallest distance of two
+    # eigenvalues of the reference; evaluated where that bound says something (< 1/2).  A pair returned twice has |v_i . v_j| = 1.
+    gap = min((b - a for a, b in zip(ref, ref[1:])), default=math.inf)
+    bound = 2 * sl_res / gap + 8 * n * EPS if gap > 0 else math.inf
+    if not out and n >= 2 and bound < 0.5:
+        worst = max(((abs(math.fsum(a * b for a, b in zip(vs[i], vs[j]))), i, j) for i in range(n) for j in range(i)), key=lambda t: t[0])
+        if not worst[0] <= bound: out.append(("eigensystem:orthogonal" + reg, f"{what}: eigenvectors {worst[2]} and {worst[1]} have |v_i . v_j| = {worst[0]!r} > {bound!r} (smallest gap of the spectrum / 2^{e} = {gap!r})"))
     return out
 
 
